@@ -61,7 +61,8 @@ def bounds(tier):
         return dict(
             neigh=[dict(MaxN=5, MaxDir=3, PVals=[0, 1, 2, 3], Salts=[s], Rich=False, Emit=True, EmitMod=1,
                         FullN=5, FullDir=3)],
-            knn=[dict(D=[2], Side=3, Step=3, QMargin=1, MaxPts=5, Orders=1)])
+            knn=[dict(D=[2], Side=3, Step=3, QMargin=1, MinPts=1, MaxPts=5, Orders=1),
+                 dict(D=[2], Side=3, Step=3, QMargin=1, MinPts=6, MaxPts=7, Orders=1)])
     return dict(
         # run 0: complete in the parameters (values beyond the number of candidates behave alike)
         # run 1: up to 6 candidates and 4 sectors, parameter values 0, 1, 3, 7
@@ -69,10 +70,10 @@ def bounds(tier):
                     FullN=3, FullDir=4),
                dict(MaxN=6, MaxDir=4, PVals=[0, 1, 3, 7], Salts=[s + 1], Rich=True, Emit=True, EmitMod=6,
                     FullN=0, FullDir=0)],
-        knn=[dict(D=[1], Side=7, Step=2, QMargin=2, MaxPts=6, Orders=2),
-             dict(D=[2], Side=3, Step=3, QMargin=2, MaxPts=7, Orders=1),
-             dict(D=[2], Side=4, Step=2, QMargin=1, MaxPts=3, Orders=1),
-             dict(D=[3], Side=2, Step=3, QMargin=1, MaxPts=7, Orders=1)])
+        knn=[dict(D=[1], Side=7, Step=2, QMargin=2, MinPts=1, MaxPts=7, Orders=2),
+             dict(D=[2], Side=3, Step=3, QMargin=2, MinPts=1, MaxPts=7, Orders=1),
+             dict(D=[2], Side=4, Step=2, QMargin=1, MinPts=1, MaxPts=3, Orders=1),
+             dict(D=[3], Side=2, Step=3, QMargin=1, MinPts=1, MaxPts=8, Orders=1)])
 
 
 MC_CFG = """SPECIFICATION Spec
@@ -96,6 +97,7 @@ CONSTANTS
   Side = %(Side)d
   Step = %(Step)d
   QMargin = %(QMargin)d
+  MinPts = %(MinPts)d
   MaxPts = %(MaxPts)d
   Orders = %(Orders)d
 INVARIANT Inv_Definition Inv_Unique Inv_Emit
@@ -433,11 +435,15 @@ def knn_part(ck, tier, exe, B):
     for j, pc in enumerate(probes):
         pf, po = os.path.join(w, "kprobe_%d.ndjson" % j), os.path.join(w, "kprobe_obs_%d.ndjson" % j)
         vlib.write_ndjson(pf, [pc])
-        r = subprocess.run([exe, "knn", pf, po], stdout=subprocess.DEVNULL, stderr=subprocess.DEVNULL)
+        try:
+            rc = subprocess.run([exe, "knn", pf, po], stdout=subprocess.DEVNULL, stderr=subprocess.DEVNULL,
+                                timeout=120).returncode
+        except subprocess.TimeoutExpired:
+            rc = "timeout"
         ck.add("knn_vvd_ctor_probes")
-        if r.returncode != 0:
+        if rc != 0:
             dis.add({"kind": "knn", "what": "crash", "ctor": "Ball(VectorVectorDouble)", "npts_lt_dim": True},
-                    pc["id"], lambda: {"points": pc["pts"], "query": pc["q"], "exit": r.returncode,
+                    pc["id"], lambda: {"points": pc["pts"], "query": pc["q"], "exit": rc,
                                        "how": "Ball ball(data /* [dim][npts] */, nullptr, 1, 1) with npts < dim"})
     for casefile, obsfile in zip(ch.cases, ch.outs):
         for c, obs in lockstep(casefile, obsfile):
@@ -463,7 +469,8 @@ def knn_part(ck, tier, exe, B):
                         all(abs(a - b2) <= 1e-12 * max(1.0, b2) for a, b2 in zip(ob["d"], want_d))
                     if not ok:
                         dis.add({"kind": "knn", "metric": mname, "dim": c["dim"], "wrong_indices": ob["ind"] != want_i,
-                                 "wrong_count": len(ob["ind"]) != k},
+                                 "wrong_count": len(ob["ind"]) != k, "right_set": sorted(ob["ind"]) == sorted(want_i),
+                                 "k_ge_6": k >= 6},
                                 c["id"] + k,
                                 lambda: {"points": c["pts"], "query": c["q"], "metric": mname, "k": k,
                                          "expected_indices": want_i, "expected_distances": want_d,
